@@ -28,6 +28,12 @@ PROGRAMS = [
     'function a() { function b() { function c() { return a + b + c; } return c; } return b; }',
     '(function () { var x = 1; (function () { var y = x; (function () { var z = y + x; })(); })(); })();',
     'function f(do1, if1, in1) { var new1 = do1 + if1 + in1; return new1; }',
+    # one spelling free in one function and bound in another / in a sibling
+    'function f() { return a; } function g(a, b) { return a - b; }',
+    'function f() { for (i = 0; i < 3; i++) { } } function g() { for (var i = 0, j = 1; i < j; i++) { } return i + j; }',
+    'function f(a) { return function () { return b + a; }; } function g(b) { var a = b; return a; } x = a + b;',
+    'function f() { try { } catch (e) { } return e; } function g(e, f) { try { } catch (f) { return e + f; } }',
+    'function f() { function a() { return b; } var b; return a; } function g() { return a + b; }',
 ]
 
 
@@ -35,6 +41,14 @@ def many_names(n):
     names = ['v%d' % i for i in range(n)]
     body = 'var ' + ', '.join('%s = %d' % (x, i) for i, x in enumerate(names)) + '; return ' + ' + '.join(names) + ' + outside;'
     return 'function big() { %s }' % body
+
+
+def short_among_many(n):
+    """many frequently used locals plus single-letter ones used once (so they come last in the renaming order)"""
+    names = ['y%02d' % i for i in range(n)]
+    body = 'var ' + ', '.join('%s = %d' % (x, i) for i, x in enumerate(names)) + '; var q = x; '
+    body += 'return ' + ' + '.join('%s * %s' % (x, x) for x in names) + ' + q + z;'
+    return 'function total(x, z) { %s }' % body
 
 
 def nested_many(n):
@@ -205,7 +219,7 @@ def main(run, tier):
             configs.append(('indent+obfuscate globals=%s shadow=%s' % (og, sf), og,
                             lambda ob, og=og, sf=sf: unparsers.Unparser(rules=(rules.indent('  '),) + ((rules.obfuscate(
                                 obfuscate_globals=og, shadow_funcname=sf, reserved_keywords=kwd),) if ob else ()))))
-    progs = list(PROGRAMS) + [many_names(60), many_names(300), nested_many(250)]
+    progs = list(PROGRAMS) + [many_names(60), many_names(300), nested_many(250), short_among_many(60), short_among_many(120)]
     if tier == 'thorough':
         progs += [many_names(3000), nested_many(1500)]
     n = 0
